@@ -17,10 +17,11 @@ from vf.ref import hdlc_ref
 ID = "C01"
 LEVEL = "exploration"
 RULE = (
-    "stream = 1..6 items (well-formed frame / corrupted frame [bit flip, truncation incl. right after the HCS, extra octets, "
+    "stream = 1..6 items (every 40th stream 60..220 items, 10..40 KB) (well-formed frame, 30% with boundary-value check sequences: HCS/FCS 0000, FFFF, ending in 7D, containing 7E, "
+    "running FCS register 0000 mid-frame, near-maximum flag/escape-dense frames / corrupted frame [bit flip, truncation incl. right after the HCS, extra octets, "
     "wrong length field with HCS+FCS recomputed, swapped FCS] / noise [random, flag+escape dense, frame look-alike, abort sequence]) "
     "joined by 0..3 flags, stuffed on the wire when the configuration uses stuffing; each stream is run under one of the 4 reader "
-    "configurations and several splittings (none, byte-at-a-time, every single cut if short, random cuts, fixed sizes). "
+    "configurations and several splittings (none, byte-at-a-time, every single cut if short, random cuts, fixed sizes, cuts near multiples of 2047/2048/8191/8192, cuts right after every n-th flag). "
     "evaluations = (configuration, stream, splitting) executions; distinct non-trivial = distinct (configuration, stream) digests that returned >= 1 frame."
 )
 ASSUMPTIONS = [
@@ -38,7 +39,7 @@ def plan(tier: str, seed: int) -> list[dict]:
     return [{"kind": "suite"}] + [{"kind": "gen", "n": N_STREAMS[tier]} for _ in range(16)]
 
 
-def make_stream(rng, cfg) -> tuple[bytes, list]:
+def make_stream(rng, cfg, big: bool = False) -> tuple[bytes, list]:
     stuffing = cfg[0]
     ids = hdlc_gen.IdSource(rng)
     parts = bytearray()
@@ -49,12 +50,17 @@ def make_stream(rng, cfg) -> tuple[bytes, list]:
         parts += nz
         desc.append(("noise", fl))
     parts += bytes([0x7E]) * rng.choice((1, 1, 2, 3))
-    for _ in range(rng.randint(1, 6)):
+    n_items = rng.randint(1, 6) if not big else rng.randint(60, 220)
+    for _ in range(n_items):
         r = rng.random()
         if r < 0.5:
-            fr, _d = hdlc_gen.good_frame(rng, ids, max_info=rng.choice((None, 60, 60, 300)))
+            if rng.random() < 0.3:
+                fr, _d, kind = hdlc_gen.special_frame(rng, ids, None if not big else rng.choice(("hcs_zero", "fcs_zero", "reg_zero_mid", "fcs_ends_7d")))
+                desc.append(("good", f"special:{kind}"))
+            else:
+                fr, _d = hdlc_gen.good_frame(rng, ids, max_info=rng.choice((None, 60, 60, 300)) if not big else 120)
+                desc.append(("good", len(fr)))
             parts += hdlc_gen.on_wire(fr, stuffing)
-            desc.append(("good", len(fr)))
         elif r < 0.8:
             fr, _d = hdlc_gen.good_frame(rng, ids, max_info=rng.choice((40, 40, 300, None)))
             bad, kind = hdlc_gen.corrupt(rng, fr)
@@ -67,7 +73,10 @@ def make_stream(rng, cfg) -> tuple[bytes, list]:
             parts += wire
             desc.append(("corrupt", kind))
         else:
-            nz, fl = hdlc_gen.noise(rng, rng.randint(1, 40))
+            if rng.random() < 0.04:
+                nz, fl = hdlc_gen.long_run(rng)
+            else:
+                nz, fl = hdlc_gen.noise(rng, rng.randint(1, 40))
             parts += nz
             desc.append(("noise", fl))
         parts += bytes([0x7E]) * rng.choice((0, 1, 1, 1, 2, 3))
@@ -122,10 +131,15 @@ def run(shard: dict, ctx) -> None:
     states: set = set()
     for i in range(shard["n"]):
         cfg = hdlc_gen.CONFIGS[rng.randrange(4)]
-        stream, desc = make_stream(rng, cfg)
+        big = i % 40 == 39  # streams of 10..40 KB: more than the readers' internal limits consumed inside one read()
+        stream, desc = make_stream(rng, cfg, big)
+        if big:
+            ctx.count("big_streams")
         for d in desc:
-            ctx.count(f"item_{d[0]}" + (f"_{d[1]}" if d[0] != "good" else ""))
-        specs = [("none",), ("bytewise",)] + [splits.random_spec(rng, len(stream), False) for _ in range(2)]
+            ctx.count(f"item_{d[0]}" + (f"_{d[1]}" if d[0] != "good" else "") + ("_special" if d[0] == "good" and str(d[1]).startswith("special") else ""))
+        specs = [("none",), ("bytewise",) if len(stream) < 6000 else ("fixed", 4096, rng.randrange(4096))] + [splits.random_spec(rng, len(stream), False) for _ in range(2)]
+        specs.append(splits.limit_spec(rng, len(stream)))
+        specs.append(splits.aligned_spec(stream, 0x7E, rng.choice((1, 1, 2, 5))))
         if len(stream) <= 48:
             specs += [("single", c) for c in range(1, len(stream))]
         got_any = False
